@@ -789,7 +789,10 @@ async fn client_response(ctx: Ctx, spec: StreamSpec, mut fut: client::ResponseFu
 }
 
 /// One SendRequest clone issuing its share of requests sequentially.
-pub async fn client_requester(ctx: Ctx, mut sr: client::SendRequest<BodyBuf>, specs: Vec<StreamSpec>, done: Rc<RefCell<u32>>) {
+/// Where a requester leaves its `SendRequest` handle when it is done instead of dropping it (a pooled connection).
+pub type GiveBack = Option<Rc<RefCell<Option<client::SendRequest<BodyBuf>>>>>;
+
+pub async fn client_requester(ctx: Ctx, mut sr: client::SendRequest<BodyBuf>, specs: Vec<StreamSpec>, done: Rc<RefCell<u32>>, give_back: GiveBack) {
     for spec in specs {
         yield_n(spec.start_delay).await;
         if spec.start_gate {
@@ -823,6 +826,15 @@ pub async fn client_requester(ctx: Ctx, mut sr: client::SendRequest<BodyBuf>, sp
         }
     }
     *done.borrow_mut() += 1;
+    if let Some(pool) = give_back {
+        // a pooled connection: the handle that made (and possibly queued) the requests stays alive. It is handed
+        // back ready for the next request, the way a pool does (`ready()` before reuse).
+        let id = call(&ctx, Op::Ready, 0, 0, 0, 0, false, None);
+        let r = poll_fn(|cx| sr.poll_ready(cx)).await;
+        ret(&ctx, Op::Ready, id, 0, 0, 0, 0, false, res_of(&r), None);
+        *pool.borrow_mut() = Some(sr);
+        return;
+    }
     let id = call(&ctx, Op::DropSendRequest, 0, 0, 0, 0, false, None);
     drop(sr);
     ret(&ctx, Op::DropSendRequest, id, 0, 0, 0, 0, false, Res::Ok, None);
